@@ -149,10 +149,12 @@ theorem series_spacing (env : OEnv) (s : OState) (inp : OInput) (d : Nat)
     ∀ o ∈ (Outstation.step env s inp).2, OOut.kind o ≠ .unsolWait :=
   @Dnp3.Proofs.C14.series_spacing env s inp d hu hm hlt
 
-/-- (a) a data series that ends without confirmation at time `t` arms the retry delay: `unsol = ready (t + rdelay)` -/
+/-- (a) a data series that ends without confirmation at time `t` arms the retry delay: `unsol = ready (t + rdelay)`
+    (and resets the database: the events it carried go back to unwritten, D4 repaired) -/
 theorem series_end_sets_delay (a : Acc) :
     afterUnsolSeries a false false =
-      (({ a.1 with unsol := .ready (some (a.1.now + a.1.cfg.rdelay)) }, a.2), .until (a.1.now + a.1.cfg.rdelay)) :=
+      (({ a.1 with db := a.1.db.reset, unsol := .ready (some (a.1.now + a.1.cfg.rdelay)) }, a.2),
+        .until (a.1.now + a.1.cfg.rdelay)) :=
   @Dnp3.Proofs.C14.series_end_sets_delay a
 
 /-- (b) until that time `checkUnsolicited` starts nothing (it only reports when to look again) -/
